@@ -36,6 +36,7 @@ fn engine_by_name(n: &str) -> Option<Box<dyn Engine>> {
         "sched" => Some(Box::new(engines::sched::Sched)),
         "task" => Some(Box::new(engines::task::TaskEngine)),
         "queue" => Some(Box::new(engines::queue::QueueEngine)),
+        "net" => Some(Box::new(engines::net::Net)),
         "synccell" => Some(Box::new(engines::synccell::SyncCellEngine)),
         _ => None,
     }
